@@ -151,6 +151,7 @@ func TestCallbacks(t *testing.T) {
 		}
 		closeAt := time.Duration(200+rng.Intn(5000)) * time.Millisecond
 		appCloses := rng.Intn(4) != 0
+		secondClose := rng.Intn(2) == 0
 		synctest.Test(t, func(t *testing.T) {
 			t.Helper()
 			lg := &cbLog{out: out, st: st}
@@ -213,6 +214,15 @@ func TestCallbacks(t *testing.T) {
 					_ = p.ag["A"].Close()
 				}
 				lg.put(map[string]any{"ev": "CloseRet", "ag": "A", "graceful": graceful})
+				if secondClose { // the other flavour of close afterwards: GracefulClose after Close must still wait for the handlers
+					lg.put(map[string]any{"ev": "CloseCall", "ag": "A", "graceful": !graceful, "from": "app"})
+					if graceful {
+						_ = p.ag["A"].Close()
+					} else {
+						_ = p.ag["A"].GracefulClose()
+					}
+					lg.put(map[string]any{"ev": "CloseRet", "ag": "A", "graceful": !graceful})
+				}
 			}
 			var cwg sync.WaitGroup
 			cwg.Add(1)
@@ -221,6 +231,12 @@ func TestCallbacks(t *testing.T) {
 				time.Sleep(closeAt)
 				if appCloses {
 					closer()
+				}
+				if secondClose && plan["Bcs"] == "close" && p.closed["B"].Load() {
+					// B was closed (ungracefully) by its own handler; the application follows up with GracefulClose from outside
+					lg.put(map[string]any{"ev": "CloseCall", "ag": "B", "graceful": true, "from": "app"})
+					_ = p.ag["B"].GracefulClose()
+					lg.put(map[string]any{"ev": "CloseRet", "ag": "B", "graceful": true})
 				}
 			}()
 			p.run(1500 * time.Millisecond)
